@@ -118,3 +118,38 @@ def well_placed(a: d.Assignment) -> list:
         if not well_placed_index(a.expression, k, k not in target):
             bad.append(k)
     return bad
+
+
+# ---- sugar level ---------------------------------------------------------------------------------
+
+from tensora.expression import ast as sugar  # noqa: E402
+
+
+def s_has_index(e: sugar.Expression, k: str) -> bool:
+    """Some tensor of the (sugar) expression has index k."""
+    match e:
+        case sugar.Tensor():
+            return k in e.indexes
+        case sugar.Add():
+            return s_has_index(e.left, k) or s_has_index(e.right, k)
+        case sugar.Subtract():
+            return s_has_index(e.left, k) or s_has_index(e.right, k)
+        case sugar.Multiply():
+            return s_has_index(e.left, k) or s_has_index(e.right, k)
+        case _:
+            return False
+
+
+def s_uniform(e: sugar.Expression, k: str) -> bool:
+    """Every additive term of the (sugar) expression mentions k (the oracle's own definition)."""
+    match e:
+        case sugar.Tensor():
+            return k in e.indexes
+        case sugar.Add():
+            return s_uniform(e.left, k) and s_uniform(e.right, k)
+        case sugar.Subtract():
+            return s_uniform(e.left, k) and s_uniform(e.right, k)
+        case sugar.Multiply():
+            return s_uniform(e.left, k) or s_uniform(e.right, k)
+        case _:
+            return False
